@@ -68,7 +68,7 @@ _whole.install(globals(), "C01",
                     "entry, seed and result against the box on boxes that are decimal, a few ulps wide, 1e+-6 wide, with optima on or beyond the faces.",
                note="External contracts measured on every trace, not proved: np.random.uniform(lo,hi) in [lo,hi] (X1), CMA-ES 'bounds' (X2), scipy 'bounds' (X3), qmc samples in [0,1) (X4). NaN genes (non-finite draws) are outside the domain. " + _whole.HIST_NOTE,
                technique="Coq theorems on Flocq binary64 operators (regenerated apply_bounds) + history-machine invariant over all event streams + vm_compute trace replay + box monitor on real runs",
-               quick=200, thorough=5000, nontrivial=nontrivial, front_ends=["common"], machine_replay=False, hist_replay=True, extra_checks=[scaling, operators],
+               quick=200, thorough=5000, nontrivial=nontrivial, front_ends=["common", "ops"], machine_replay=False, hist_replay=True, extra_checks=[scaling, operators],
                forces=[(3, {"cap_evals": 900}), (1, {"cap_evals": 900, "objective_kind": "linear"}), (1, {"cap_evals": 900, "height": 2, "engines": ["SEA", "Local"]}),
                        (1, {"cap_evals": 900, "height": 2, "engines": ["GAStyleSEA", "CMA"]}),
                        (1, {"cap_evals": 700, "height": 2, "dim": 5, "engines": ["SEA", "DE"], "levels_patch": [{}, {"sample_std": 8.0, "pop": 5}], "box_style": "sym"}),
